@@ -325,15 +325,19 @@ Fixpoint hdel_all (ks : list bytes) (h : hdrs) : hdrs :=
   match ks with [] => h | k :: r => hdel_all r (hdel k h) end.
 
 (* the steps of ComposedResponse.prepare (for a request without Range header), in the order of the source *)
-(* if 'Content-Encoding' in headers: body.content_encoding = headers.element('Content-Encoding'); self.chunked = True *)
-Definition r_step_coding (h : hdrs) (b : body) : option (hdrs * body) :=
+(* if 'Content-Encoding' in headers: body.content_encoding = headers.element('Content-Encoding'); self.chunked = True
+   [b] is the Body object as the caller hands it over: on a message object that was prepared before with a Content-Encoding
+   it still carries the codec of that use ([b_codec b]).  Finding D59: on the tree as found nothing takes it back when the
+   field is absent (the body goes out coded, unannounced, under the Content-Length of the uncoded content); after the
+   repair the else branch resets it (body.content_encoding = None): the body is coded exactly when the field says so. *)
+Definition r_step_coding (v59 : variant) (h : hdrs) (b : body) : option (hdrs * body) :=
   match hget H_CE h with
   | Some ce =>
       match cc_ce C ce with
       | None => None
       | Some id => set_chunked true h (with_codec b (Some id))
       end
-  | None => Some (h, b)
+  | None => Some (h, match v59 with AsFound => b | Repaired => with_codec b None end)
   end.
 (* if not self.chunked: Content-Length = len(body) *)
 Definition r_step_length (h : hdrs) (b : body) : option (hdrs * body) :=
@@ -375,11 +379,11 @@ Definition r_step_head (v29 : variant) (code : N) (rmethod : bytes) (b : body) :
   | Repaired => if r_bodiless code rmethod then with_chunked b14 false else b14
   end.
 
-(* ComposedResponse.prepare; [v29] selects the behaviour for finding D29 *)
-Definition r_prepare (v29 : variant) (now : bytes) (r : response) : option response :=
+(* ComposedResponse.prepare; [v59] / [v29] select the behaviour for findings D59 (stale content coding) and D29 *)
+Definition r_prepare (v59 v29 : variant) (now : bytes) (r : response) : option response :=
   let code := r_code r in
   let b1 := if no_body_status code then body_clear (r_body r) else r_body r in
-  match r_step_coding (r_hdrs r) b1 with
+  match r_step_coding v59 (r_hdrs r) b1 with
   | None => None
   | Some (h2, b2) =>
   match sync_chunked h2 b2 with
